@@ -43,6 +43,10 @@ fn run_op(ctx: &Ctx, ch: &Channel, name: &str, chan: u16, seq: u32) -> (String, 
         "bind" => (format!("{:?}", ch.queue_bind("q", "x", "k", FieldTable::new()).map_err(|e| err_name(&e))), "Ok(())".into()),
         "confirm" => (format!("{:?}", ch.enable_publisher_confirms().map_err(|e| err_name(&e))), "Ok(())".into()),
         "get_empty" => (format!("{:?}", ch.basic_get("q", true).map(|g| g.map(|g| g.delivery.delivery_tag())).map_err(|e| err_name(&e))), "Ok(None)".into()),
+        "get_msg" => {
+            let r = ch.basic_get("msgq", false).map(|g| g.map(|g| (g.delivery.delivery_tag(), g.message_count, String::from_utf8_lossy(&g.delivery.body).to_string())));
+            (format!("{:?}", r.map_err(|e| err_name(&e))), expected_only(name, chan, seq).1)
+        }
         "consume_cancel" => {
             // two requests: consume (seq) and cancel (seq+1)
             let r = ch.basic_consume("q", ConsumerOptions::default());
@@ -77,6 +81,24 @@ fn run_op(ctx: &Ctx, ch: &Channel, name: &str, chan: u16, seq: u32) -> (String, 
     }
 }
 
+/// What the scripted broker answers to op `name` issued as request `seq` of channel `chan`
+/// (the value-carrying ops only; everything else does not depend on the numbering).
+fn expected_only(name: &str, chan: u16, seq: u32) -> ((), String) {
+    let (a, b) = StdBroker::reply_values(chan, seq);
+    let w = match name {
+        "declare" => format!("{:?}", Ok::<_, String>(("named".to_string(), Some(a), Some(b)))),
+        "declare_auto" => format!("{:?}", Ok::<_, String>((format!("gen-{}-{}", chan, seq), Some(a), Some(b)))),
+        "declare_passive" => format!("{:?}", Ok::<_, String>(("pq".to_string(), Some(a), Some(b)))),
+        "purge" | "delete" => format!("{:?}", Ok::<u32, String>(a)),
+        "consume_cancel" => format!("tag ctag-{}-{} cancel Ok(()) last Ok(\"ClientCancelled\")", chan, seq),
+        "get_msg" => format!("Ok(Some(({}, {}, \"body-{}-{}\")))", a, b, chan, seq),
+        "qos" | "recover" | "bind" | "confirm" | "declare_nowait" | "purge_nowait" | "bind_nowait" | "delete_nowait" | "publish" => "Ok(())".to_string(),
+        "get_empty" => "Ok(None)".to_string(),
+        _ => String::new(),
+    };
+    ((), w)
+}
+
 fn seqs_used(op: &str) -> u32 {
     match op {
         "consume_cancel" | "consume_srv_cancel" => 2,
@@ -100,6 +122,7 @@ impl Scenario for Rpc {
             json!({"programs": [["publish", "declare"], ["delete_nowait", "publish", "purge"], ["declare_passive", "bind"]], "hold": true}),
             json!({"programs": [["declare", "purge", "delete"], ["declare", "purge", "delete"]], "hold": false}),
             json!({"programs": [["consume_srv_cancel", "purge"], ["declare", "consume_srv_cancel"]], "hold": false}),
+            json!({"programs": [["get_msg", "purge"], ["get_empty", "get_msg"], ["declare", "get_msg"]], "hold": true}),
         ];
         v.push(json!({"programs": [["declare", "purge"], ["publish", "delete"]], "hold": false, "fine": true}));
         if tier == "thorough" {
@@ -165,10 +188,24 @@ impl Scenario for Rpc {
                     };
                     actors.push(ctx.spawn(&format!("c{}", chan), move |ctx| {
                         let mut seq = 2u32; // Channel.Open was request 1
+                        // whether Consumer::cancel still sends Basic.Cancel for a consumer the
+                        // server has already cancelled is the client's choice: after such an op
+                        // both request numberings are legal
+                        let mut slack = 0u32;
                         for (k, op) in prog.iter().enumerate() {
                             let (got, want) = run_op(&ctx, &ch, op, chan, seq);
+                            let mut line = format!("{}#{} = {} | {}", op, k, got, want);
+                            if slack > 0 && !want.starts_with("first") {
+                                let (_, alt) = expected_only(op, chan, seq - slack);
+                                if alt != want {
+                                    line = format!("{} || {}", line, alt);
+                                }
+                            }
+                            ctx.log(line);
                             seq += seqs_used(op);
-                            ctx.log(format!("{}#{} = {} | {}", op, k, got, want));
+                            if op == "consume_srv_cancel" {
+                                slack += 1;
+                            }
                         }
                         let r = ch.close();
                         ctx.log(format!("chclose -> {}", res(&r)));
@@ -195,7 +232,7 @@ impl Scenario for Rpc {
             for l in &log {
                 if let Some((lhs, want)) = l.split_once(" | ") {
                     let got = lhs.split_once(" = ").map(|x| x.1).unwrap_or("");
-                    if got != want {
+                    if !want.split(" || ").any(|w| w == got) {
                         let op = lhs.split('#').next().unwrap_or("");
                         v.push((format!("rpc:wrong-reply:{}", op), format!("channel {}: {} but the reply generated for this call was {}", i, lhs, want)));
                     }
@@ -235,11 +272,23 @@ impl Scenario for ChClose {
             }
         }
         v.push(json!({"n": 1, "state": "crossing-reuse"}));
+        // fine mode: client threads run between the I/O thread's individual takes and hand-overs
+        v.push(json!({"n": 2, "state": "inflight", "fine": true}));
+        // (one consumer only: the order in which several consumers of a channel are notified is the
+        // iteration order of a randomly seeded HashMap, which fine mode would make visible)
+        v.push(json!({"n": 1, "state": "halfcontent", "fine": true}));
+        if tier == "thorough" {
+            v.push(json!({"n": 1, "state": "crossing", "fine": true}));
+            v.push(json!({"n": 3, "state": "idle", "fine": true}));
+        }
         v
     }
     fn bound(&self, tier: &str, p: &Value) -> usize {
         if p["state"] == "crossing-reuse" {
             return 2;
+        }
+        if p["fine"] == true {
+            return if tier == "thorough" { 2 } else { 1 };
         }
         if tier == "thorough" {
             3
@@ -272,7 +321,11 @@ impl Scenario for ChClose {
         if state == "inflight" {
             broker.mute.push((50, 40)); // queue.delete is never answered: the call stays in flight
         }
-        let cfg = EnvConfig::default();
+        let mut cfg = EnvConfig::default();
+        cfg.fine = p["fine"] == true;
+        if cfg.fine {
+            cfg.max_steps = 20000;
+        }
         let st2 = state.clone();
         Built {
             broker: Box::new(broker),
@@ -353,8 +406,11 @@ impl Scenario for ChClose {
                         // id n must be available again - but see known_findings.json: reusing the id
                         // right after crossing closes can meet the server's late CloseOk; probed
                         // separately by variant crossing-reuse
-                        let r = conn.open_channel(Some(n + 10));
-                        ctx.log(format!("reopen -> {:?}", r.as_ref().map(|c| c.channel_id() - 10).map_err(err_name)));
+                        // so this variant first lets everything in flight settle (virtual
+                        // time only passes at quiescence), then asks for id n again
+                        ctx.sleep_ms(10);
+                        let r = conn.open_channel(Some(n));
+                        ctx.log(format!("reopen -> {:?}", r.as_ref().map(|c| c.channel_id()).map_err(err_name)));
                         if let Ok(c) = r {
                             let r = c.close();
                             ctx.log(format!("reclose -> {}", res(&r)));
@@ -409,11 +465,14 @@ impl Scenario for ChClose {
                 }
             } else if closed {
                 // first failing call names the cause; later calls keep failing
-                let mut results: Vec<(String, String)> = log.iter().filter_map(|l| l.split_once(" -> ").map(|(a, b)| (a.to_string(), b.replace('"', "")))).filter(|(a, _)| !a.starts_with("consumer")).collect();
+                let mut results: Vec<(String, String)> = log.iter().filter_map(|l| l.split_once(" -> ").map(|(a, b)| (a.to_string(), b.replace('"', "")))).filter(|(a, _)| !a.starts_with("consumer") && a != "chclose").collect();
                 // the value-carrying first request of the idle state
                 if let Some(l) = log.iter().find(|l| l.starts_with("purge#0 = ")) {
-                    let got = l.split_once(" = ").unwrap().1.split_once(" | ").unwrap().0.replace('"', "");
-                    results.insert(0, ("purge".to_string(), got));
+                    let (got, want) = l.split_once(" = ").unwrap().1.split_once(" | ").unwrap();
+                    if got.starts_with("Ok") && got != want {
+                        v.push(("chclose:wrong-reply-before-close".into(), format!("channel {}: purge returned {} but its reply carried {}", n, got, want)));
+                    }
+                    results.insert(0, ("purge".to_string(), got.replace('"', "")));
                 }
                 let after_marker = state != "idle" || log.iter().any(|l| l == "AFTER");
                 let first_err = results.iter().position(|(_, r)| r.starts_with("Err"));
@@ -448,19 +507,34 @@ impl Scenario for ChClose {
             // the one interleaving recorded as a known finding: the server's CloseOk for the
             // client's crossing Close arrives after id n was opened again
             let main = o.logs.get("main").cloned().unwrap_or_default();
-            if main.iter().any(|l| l.starts_with("reopen -> Err")) {
+            if main.iter().any(|l| l == "reopen -> Err(\"FrameUnexpected\")") {
+                // the connection then dies, taking the other channels with it: everything else
+                // observed in this execution is a consequence of the one finding
                 return vec![("chclose:crossing-id-reuse".into(), format!("server and client closed channel {} at the same time, the id was reopened at once and the server's late CloseOk hit the new channel: {:?}", n, main))];
             }
         }
         if closed {
             // Channel.CloseOk on n was written
             let (envs, _) = wire_frames(o);
-            if !envs.iter().any(|e| e.chan == n && is_method(e, 20, 41)) {
+            let n_ok = envs.iter().filter(|e| e.chan == n && is_method(e, 20, 41)).count();
+            if n_ok == 0 {
                 v.push(("chclose:no-close-ok".into(), format!("no Channel.CloseOk on channel {} on the wire", n)));
+            } else if n_ok != 1 {
+                v.push(("chclose:close-ok-count".into(), format!("{} Channel.CloseOk frames on channel {} for one server close", n_ok, n)));
+            }
+            // ... and before the id is used again
+            let first_ok = envs.iter().position(|e| e.chan == n && is_method(e, 20, 41));
+            let opens: Vec<usize> = envs.iter().enumerate().filter(|(_, e)| e.chan == n && is_method(e, 20, 10)).map(|(i, _)| i).collect();
+            if let (Some(ok), Some(second_open)) = (first_ok, opens.get(1)) {
+                if ok > *second_open {
+                    v.push(("chclose:close-ok-after-reopen".into(), format!("Channel.CloseOk for the closed channel {} written after the id was opened again", n)));
+                }
             }
             let main = o.logs.get("main").cloned().unwrap_or_default();
             if !main.iter().any(|l| *l == format!("reopen -> Ok({})", n)) {
                 v.push(("chclose:id-not-reusable".into(), format!("main log {:?}", main)));
+            } else if !main.iter().any(|l| l == "reclose -> Ok") {
+                v.push(("chclose:reopened-channel-unusable".into(), format!("main log {:?}", main)));
             }
         }
         let main = o.logs.get("main").cloned().unwrap_or_default();
@@ -557,26 +631,36 @@ impl Scenario for Wire {
             if log.len() != 6 || log.iter().any(|l| !l.ends_with("-> Ok")) {
                 v.push(("wire:writer-failed".into(), format!("writer {} log {:?}", chan, log)));
             }
-            // expected frame list of this channel
-            let mut want: Vec<String> = vec!["M20.10".into()];
+            // expected frames of this channel, payloads spelled out from the AMQP 0-9-1 field
+            // layouts (not produced by the generator the client uses)
+            let hex = |b: &[u8]| b.iter().map(|x| format!("{:02x}", x)).collect::<String>();
+            let mut want: Vec<String> = vec![format!("M{}", hex(&[0, 20, 0, 10, 0]))];
             for i in 0..3u8 {
-                want.push("M60.40".into());
-                want.push("H".into());
-                want.push(format!("B{:?}", vec![chan as u8 * 16 + i; (i as usize + 1) * 2]));
+                let body = vec![chan as u8 * 16 + i; (i as usize + 1) * 2];
+                want.push(format!("M{}", hex(&[0, 60, 0, 40, 0, 0, 2, b'e', b'x', 2, b'k', b'0' + i, 0])));
+                want.push(format!("H{}", hex(&[0, 60, 0, 0, 0, 0, 0, 0, 0, 0, 0, body.len() as u8, 0, 0])));
+                want.push(format!("B{}", hex(&body)));
             }
-            want.push("M50.20".into());
-            want.push("M60.10".into());
-            want.push("M20.40".into());
-            let got: Vec<String> = envs
-                .iter()
-                .filter(|e| e.chan == chan)
-                .map(|e| match e.ty {
-                    1 => format!("M{}.{}", u16::from_be_bytes([e.payload[0], e.payload[1]]), u16::from_be_bytes([e.payload[2], e.payload[3]])),
-                    2 => "H".to_string(),
-                    3 => format!("B{:?}", e.payload),
-                    t => format!("T{}", t),
-                })
-                .collect();
+            want.push(format!("M{}", hex(&[0, 50, 0, 20, 0, 0, 1, b'q', 2, b'e', b'x', 1, b'k', 1, 0, 0, 0, 0])));
+            want.push(format!("M{}", hex(&[0, 60, 0, 10, 0, 0, 0, 0, 0, chan as u8, 0])));
+            want.push(format!("M{}", hex(&[0, 20, 0, 40])));
+            let mut got: Vec<String> = Vec::new();
+            for e in envs.iter().filter(|e| e.chan == chan) {
+                match e.ty {
+                    // Channel.Close: code and text are the client's business, only its place matters
+                    1 if is_method(e, 20, 40) => got.push(format!("M{}", hex(&e.payload[..4]))),
+                    1 => got.push(format!("M{}", hex(&e.payload))),
+                    2 => got.push(format!("H{}", hex(&e.payload))),
+                    3 => {
+                        // a body may legally be split into several frames: compare the concatenation
+                        match got.last_mut() {
+                            Some(last) if last.starts_with('B') => last.push_str(&hex(&e.payload)),
+                            _ => got.push(format!("B{}", hex(&e.payload))),
+                        }
+                    }
+                    t => got.push(format!("T{}", t)),
+                }
+            }
             if got != want {
                 let key = if got.len() < want.len() { "wire:frames-lost" } else if got.len() > want.len() { "wire:frames-duplicated" } else { "wire:frames-reordered-or-changed" };
                 v.push((key.into(), format!("channel {} frames on the wire {:?} expected {:?}", chan, got, want)));
@@ -586,9 +670,24 @@ impl Scenario for Wire {
         if main != vec!["close -> Ok".to_string()] {
             v.push(("wire:close".into(), format!("main log {:?}", main)));
         }
+        // channel 0 carries exactly the handshake and the close (heartbeats are off)
+        let ch0: Vec<String> = envs.iter().filter(|e| e.chan == 0).map(|e| if e.ty == 1 && e.payload.len() >= 4 { format!("M{}.{}", u16::from_be_bytes([e.payload[0], e.payload[1]]), u16::from_be_bytes([e.payload[2], e.payload[3]])) } else { format!("T{}", e.ty) }).collect();
+        if ch0 != vec!["M10.11", "M10.31", "M10.40", "M10.50"] {
+            v.push(("wire:channel0-frames".into(), format!("channel 0 frames on the wire {:?}", ch0)));
+        }
         if let Some(last) = envs.last() {
             if !(last.chan == 0 && is_method(last, 10, 50)) {
                 v.push(("wire:last-frame".into(), "the last frame written is not Connection.Close".into()));
+            }
+        }
+        // every frame is well formed for a parser that is not the client's generator
+        for e in &envs {
+            if e.ty == 1 {
+                if let Err(err) = vh::wire::request_bits(&e.payload) {
+                    if !err.starts_with("no schema") {
+                        v.push(("wire:malformed-method".into(), format!("channel {} method payload {:?}: {}", e.chan, e.payload, err)));
+                    }
+                }
             }
         }
         v
